@@ -19,7 +19,7 @@ func init() {
 	registry["C07"] = func() []*seqmc.Spec {
 		maxCap, keys := 4, 5
 		if thorough {
-			maxCap, keys = 5, 6
+			maxCap, keys = 5, 7
 		}
 		var specs []*seqmc.Spec
 		for n := 1; n <= maxCap; n++ {
